@@ -182,6 +182,8 @@ type RawResp struct {
 type RawConn struct {
 	c  net.Conn
 	br *bufio.Reader
+	// HalfClose: shut down the sending side after each request written
+	HalfClose bool
 }
 
 func DialRaw(addr string) (*RawConn, error) {
@@ -199,6 +201,13 @@ func (rc *RawConn) Do(method string, raw []byte) (*RawResp, error) {
 	rc.c.SetDeadline(time.Now().Add(20 * time.Second))
 	if _, err := rc.c.Write(raw); err != nil {
 		return nil, err
+	}
+	if rc.HalfClose {
+		// the client is done sending (shutdown(SHUT_WR)) and waits for the answer, as nc and some
+		// health checkers do
+		if tc, ok := rc.c.(*net.TCPConn); ok {
+			tc.CloseWrite()
+		}
 	}
 	resp, err := http.ReadResponse(rc.br, &http.Request{Method: method})
 	// interim responses (1xx other than 101) precede the real one
